@@ -167,6 +167,24 @@ def stepArith (g : Args) (ln : Line) : Unit × String :=
   | "merge_sort" => srt (mergeSort lt a f l)
   | _ => bad
 
+/-- `adl_swap n=k`: what [alg.swap] / [alg.reverse] prescribe for an element type with a user-provided `swap` that exchanges
+    the payload `v` and leaves the per-cell tag `home` alone (the harness's `adl::S`): `iter_swap(a, b)` is one unqualified
+    `swap(*a, *b)`, `reverse` applies `iter_swap` exactly `(last - first) / 2` times, `swap_ranges` swaps `n` pairs - so the
+    tags never move and the number of user-swap calls is 1, k / 2, k.  Cells: `x[t] = (10 + t)@t`, `y[t] = (50 + t)@(100 + t)`,
+    t ≤ k + 1; the algorithms run on `x[1..k]` (and `y[1..k]`).  Stated in closed form, no loop model. -/
+def adlShow (u : Nat) (x y : List (Nat × Nat)) : String :=
+  let f (l : List (Nat × Nat)) := String.join (l.map fun (v, h) => s!"{v}@{h},")
+  s!" u={u} x={f x} y={f y}"
+
+def adlSwap (k : Nat) : String :=
+  let idx := List.range (k + 2)
+  let y0 := idx.map fun t => (50 + t, 100 + t)
+  let inR (t : Nat) : Bool := decide (1 ≤ t) && decide (t ≤ k)
+  let is := adlShow 1 (idx.map fun t => (if t == 0 then 51 else 10 + t, t)) (idx.map fun t => (if t == 1 then 10 else 50 + t, 100 + t))
+  let rv := adlShow (k / 2) (idx.map fun t => (if inR t then 10 + (k + 1 - t) else 10 + t, t)) y0
+  let sr := adlShow k (idx.map fun t => (if inR t then 50 + t else 10 + t, t)) (idx.map fun t => (if inR t then 10 + t else 50 + t, 100 + t))
+  "is" ++ is ++ " rv" ++ rv ++ " sr" ++ sr
+
 def step (_ : Unit) (ln : Line) : Unit × String :=
 
   let bad := ((), "bad-op\tbad-op")
@@ -249,6 +267,7 @@ def step (_ : Unit) (ln : Line) : Unit × String :=
     let s := Spec.rotate R (g.m - f)
     out (fmtE (fun (r : List E × Nat) => s!"r={r.2} a={fmtList r.1}") (rotate a f g.m l))
       s!"r={f + s.2} a={fmtList (splice a f l s.1)}"
+  | "adl_swap" => let s := adlSwap ((ln.nat? "n").getD 0); out s s
   | "reverse" =>
     if g.it == "rptr" then
       -- the range seen through reverse_iterators: the random-access loop runs on the mirrored sequence (Props.reverseRev_eq)
